@@ -247,3 +247,83 @@ def check_C10(sc, v, tier, seed, replay):
     def key(r, e):
         return "Dec:hdr%s:enc%s:%s" % (e.get("hdr"), _alg_of(evs, e), r["why"][:50])
     _reject_to_violation(v, rejects, key)
+
+
+# ------------------------------------------------------------------------------------------------
+# C03 / C04  NGAP encoding is X.691; decode inverts encode
+# ------------------------------------------------------------------------------------------------
+def _tree_features(t, out):
+    k = t.get("k")
+    if k in ("octstr", "seqof") and len(t.get("v", [])) >= 16000:
+        out.add("len")
+    if k == "bitstr" and t.get("nbits", 0) >= 16000:
+        out.add("len")
+    if k == "seqof":
+        n = len(t["v"])
+        lb, ub = t["lb"], t["ub"]
+        if t.get("ext") and ub.get("has") and (n > ub.get("n", 1 << 40) or (lb.get("has") and n < lb.get("n", 0))):
+            out.add("seqof-ext")
+        for x in t["v"]:
+            _tree_features(x, out)
+    elif k == "seq":
+        for f in t["fields"]:
+            if f.get("present"):
+                _tree_features(f["v"], out)
+    elif k in ("choice", "open"):
+        _tree_features(t["v"], out)
+
+
+def _per_key(r, e):
+    """violation key = call site / input class"""
+    feats = set()
+    _tree_features(e.get("tree", {}), feats)
+    why = r["why"]
+    short = why.split(":")[1].strip()[:60] if ":" in why else why[:60]
+    if "len" in feats:
+        return "aper:length>=16384:" + short
+    if "seqof-ext" in feats:
+        return "aper:sequence-of-size-extension:" + short
+    return "%s:%s:%s" % (e.get("cls", ""), e.get("name", ""), short)
+
+
+def _per_run(sc, v, tier, seed, which):
+    sc.build(["rec-per"])
+    trace = os.path.join(sc.work, "per.ndjson")
+    sc.run("rec-per", ["-seed", seed, "-tier", tier, "-out", trace], timeout=1800)
+    results, rejects, lines = vlib.validate_trace(sc, "TracePer", trace, timeout=2400)
+    v.add_tlc(results)
+    v.traces = len(results)
+    v.evaluations = len(lines)
+    names = set()
+    for l in lines:
+        e = json.loads(l)
+        names.add(e["name"])
+        if e["tree"].get("k") != "invalid":
+            v.distinct.add(hash(canon(e["tree"])))
+    v.extra["message_and_schema_kinds"] = len(names)
+    v.samples = [{"name": json.loads(l)["name"], "bytes": json.loads(l)["bytes"][:64]} for l in lines[:3]]
+    mine = [r for r in rejects if r["why"].startswith(which + ":")]
+    other = [r for r in rejects if not r["why"].startswith(which + ":")]
+    if other:
+        vlib.log("note: %d reject(s) belong to the sibling property (%s)" % (len(other), "C04" if which == "C03" else "C03"))
+    _reject_to_violation(v, mine, _per_key)
+
+
+def check_C03(sc, v, tier, seed, replay):
+    _per_run(sc, v, tier, seed, "C03")
+    v.rule = ("(a) primitive schemas built with reflect.StructOf: INTEGER ranges lb in -3..3 x width 0..N exhaustively with values at/around "
+              "both ends, ranges of size 2^k-1, 2^k, 2^k+1 for k <= 40, semi-/unconstrained, ENUMERATED 1..300, BIT/OCTET STRING bound pairs x "
+              "ext x lengths at bounds and 127/128/129/300, SEQUENCE presence maps, SEQUENCE OF sizes, CHOICE 1..9 (and unset), each at "
+              "several bit offsets; (b) every one of the 78 NGAP message types and 24 transfer containers with random in-constraint "
+              "values generated by reflection (every 7th with deliberate violations); open types of length 0..16380; "
+              "distinct = distinct value tree")
+    v.assumptions = ["Per.tla is X.691 ALIGNED BASIC-PER; constraints are those of the struct tags (TS 38.413 cross-check on the emulator's path: C13/C01)",
+                     "a value using an extension of an extensible constraint may be refused, but must be encoded per X.691 if encoded"]
+
+
+def check_C04(sc, v, tier, seed, replay):
+    _per_run(sc, v, tier, seed, "C04")
+    v.rule = ("same generated values as C03: real encode -> real decode -> tree equality -> real re-encode -> byte equality; the cases in which "
+              "the real bytes equal the reference encoder's bytes are at the same time canonical encodings of an independent encoder; "
+              "distinct = distinct value tree")
+    v.assumptions = ["tree equality is on the Go representation including the unused bits of a BIT STRING's last octet"]
